@@ -242,7 +242,15 @@ int main() {
         st->clear(); ret = "-";
       } else if (tok == "EX") {
         int d; in >> d;
-        st->expansion(d); ret = "-";
+        // documented precondition: no simplex of dimension > 1; and the endpoints of every edge are vertices
+        // (find_vertex is not checked): otherwise the call is refused by the harness
+        bool pre = true;
+        for (Sh sh : st->complex_simplex_range()) {
+          int dd = st->dimension(sh);
+          if (dd > 1) pre = false;
+          if (dd == 1) for (Vh v : st->simplex_vertex_range(sh)) if (st->find(std::vector<Vh>{v}) == st->null_simplex()) pre = false;
+        }
+        if (!pre) ret = "PRE"; else { st->expansion(d); ret = "-"; }
       } else {
         vh::emit("BADOP"); continue;
       }
